@@ -64,7 +64,8 @@ def _gen_one(task):
             if skip:
                 continue
             out.append({"name": o.name, "kind": o.kind, "where": o.where, "trivial": o.trivial,
-                        "smt2": None if o.trivial else o.smt2(), "func": fv.label})
+                        "smt2": None if o.trivial else o.smt2(), "func": fv.label,
+                        "parts": [{"name": p.name, "smt2": p.smt2()} for p in (o.parts or [])]})
         covers = solve.cover_tasks(fv.covers)
         return {"label": fv.label, "key": key, "ok": True, "obligations": out, "covers": covers, "paths": fv.paths,
                 "gen_s": time.time() - t0, "callees": sorted(world.callees.get(fv.label, [])),
@@ -100,6 +101,8 @@ def discharge_all(gens, timeout_ms):
         for o in g["obligations"]:
             ob = Ob({"name": o["name"], "kind": o["kind"], "where": o["where"], "trivial": o["trivial"],
                      "_smt2": o["smt2"], "func": o["func"]})
+            ob.parts = [Ob({"name": p["name"], "kind": o["kind"], "where": o["where"], "trivial": False,
+                            "_smt2": p["smt2"], "func": o["func"]}) for p in o.get("parts", [])] or None
             obs.append(ob)
     res = solve.discharge(obs, timeout_ms=timeout_ms)
     return obs, res
